@@ -46,6 +46,17 @@ Theorem C15_static_entry_executes_nothing :
 Proof. exact static_entry_executes_nothing. Qed.
 Print Assumptions C15_static_entry_executes_nothing.
 
+(* ... and so does any HISTORY of calls on one loader built with inspection disallowed (load, resolve_aliases loading
+   external packages, load again, ...): the options are the loader's own, no call changes them (translator: no method
+   assigns to them; observed after every call), so what was loaded before never turns a later load into an inspecting one. *)
+Theorem C15_static_history_executes_nothing :
+  forall w store search catch steps s r s',
+    run_history w false false store search catch steps s = (r, s') ->
+    executions s' = executions s /\ inspections s' = inspections s /\ mods s' = mods s /\
+    cur s' = cur s /\ next s' = next s /\ heap s' = heap s.
+Proof. exact static_history_executes_nothing. Qed.
+Print Assumptions C15_static_history_executes_nothing.
+
 (* A static load ends in success, LoadingError, ModuleNotFoundError, or with what the finder itself raised for one of
    the packages asked for, at any nesting depth (FileNotFoundError for a missing Path, UnicodeDecodeError for a
    top-level __init__.py that is not UTF-8). *)
@@ -92,6 +103,18 @@ Theorem C15_sys_path_restored :
     cur s' = cur s /\ heap s' (cur s) = heap s (cur s).
 Proof. exact sys_path_restored. Qed.
 Print Assumptions C15_sys_path_restored.
+
+(* The worlds of this theorem include code that calls back into Griffe at import time: nested `with sys_path(...)`,
+   dynamic_import(name, paths), inspect, load(force_inspection=True) are nested scopes (EScope), each saving the binding it
+   finds in its own frame -- a stack.  (One shared slot instead does not nest: Example one_slot_does_not_nest.)
+   The same for any history of calls on one loader: *)
+Theorem C15_history_sys_path_restored :
+  forall w allow force store search catch steps s r s',
+    wf s -> search <> [] ->
+    run_history w allow force store search catch steps s = (r, s') ->
+    cur s' = cur s /\ heap s' (cur s) = heap s (cur s).
+Proof. exact history_sys_path_restored. Qed.
+Print Assumptions C15_history_sys_path_restored.
 
 (* for a package found on disk no assumption on the search paths is needed *)
 Theorem C15_sys_path_restored_found_package :
@@ -146,6 +169,11 @@ Theorem C15_system_exit_never_escapes :
     fst (session w allow force store submodules search root later s) <> Some XSystemExit.
 Proof. exact system_exit_never_escapes. Qed.
 Print Assumptions C15_system_exit_never_escapes.
+
+Theorem C15_system_exit_never_escapes_history :
+  forall w allow force store search catch steps s, fst (run_history w allow force store search catch steps s) <> Some XSystemExit.
+Proof. exact system_exit_never_escapes_history. Qed.
+Print Assumptions C15_system_exit_never_escapes_history.
 
 Theorem C15_system_exit_never_escapes_entry :
   forall allow force store phases s, fst (run_phases allow force store phases s) <> Some XSystemExit.
